@@ -249,9 +249,14 @@ func cuScriptAccepts(ref J, manifest J, stable, canary string) bool {
 	}
 	d := cuDataOf(o.build("verif.example.io/v1", "Probe", "probe"))
 	w := "20%"
-	_, err := custom.VerifExecuteLuaForCanary(custom.Config{RolloutNs: cuNs, StableService: stable, CanaryService: canary},
-		d, &v1beta1.TrafficRoutingStrategy{Traffic: &w}, script)
-	return err == nil
+	accepted := false
+	_ = guard(func() interface{} {
+		_, err := custom.VerifExecuteLuaForCanary(custom.Config{RolloutNs: cuNs, StableService: stable, CanaryService: canary},
+			d, &v1beta1.TrafficRoutingStrategy{Traffic: &w}, script)
+		accepted = err == nil
+		return nil
+	})
+	return accepted // a script on which the provider panics is simply "not accepted" for the generator; the cases judge it
 }
 
 // goodManifest: a manifest of the ref's kind; nine times in ten one the script accepts.
